@@ -464,6 +464,9 @@ func (e *Enc) frameObligations(written map[string]bool, entry *State, final *Sta
 		if strings.HasPrefix(k, "RV|") || (fp.whole[k] && fp.wholeCond[k] == "") {
 			continue
 		}
+		if strings.HasPrefix(k, "G|") && e.DB.Allocators[k[2:]] {
+			continue // allocator ghost variables are outside frame clauses (they only grow)
+		}
 		srt, ok := e.heapSort[k]
 		if !ok {
 			continue
